@@ -134,6 +134,12 @@ func (bf *Filter) matches(data []byte) bool {
 		return false
 	}
 
+	// An empty bit array cannot contain anything; hashing into it would
+	// divide by zero.
+	if len(bf.msgFilterLoad.Filter) == 0 {
+		return false
+	}
+
 	// The bloom filter does not contain the data if any of the bit offsets
 	// which result from hashing the data using each independent hash
 	// function are not set.  The shifts and masks below are a faster
@@ -190,6 +196,12 @@ func (bf *Filter) MatchesOutPoint(outpoint *wire.OutPoint) bool {
 // This function MUST be called with the filter lock held.
 func (bf *Filter) add(data []byte) {
 	if bf.msgFilterLoad == nil {
+		return
+	}
+
+	// Nothing can be stored in an empty bit array; hashing into it would
+	// divide by zero.
+	if len(bf.msgFilterLoad.Filter) == 0 {
 		return
 	}
 
